@@ -174,7 +174,10 @@ C03ViewReason(e) ==
 
 -----------------------------------------------------------------------------
 Reason(e, s) ==
-  CASE e.ev = "skip" -> ""
+  CASE e.ev = "skip" ->     \* the public API refused to build the packet of the case
+         \* C01 quantifies over the well-formed values "constructible through the public API" and lists them: refusing one of
+         \* them (e.g. SetExtension rejecting a legal id or length) empties the statement instead of satisfying it
+         IF "fam" \in DOMAIN e /\ e.fam = "C01" THEN "wellformed_value_refused_by_the_api" ELSE ""
     [] e.ev = "roundtrip" -> C01Reason(e)
     [] e.ev = "remarshal" ->      \* object lifecycle: changed in place, marshalled again = freshly built value
          IF e.res = "panic" THEN "remarshal_panic"
